@@ -3,7 +3,7 @@
    No Extract Constant anywhere. *)
 From Coq Require Import List NArith ZArith.
 From Coq Require Extraction ExtrOcamlBasic.
-From MSP Require Import Model.Cksum Model.LzssBase Model.Lzss Model.LzssEnc Model.Mszip Model.Lzx Model.Qtm L2.Sys L2.Host L2.Szdd Model.Find Model.OutName Model.Cabx Model.Chm Model.Oab Model.Cab Model.CabSet Model.Kwaj.
+From MSP Require Import Model.Cksum Model.LzssBase Model.Lzss Model.LzssEnc Model.Mszip Model.Lzx Model.Qtm L2.Sys L2.Host L2.Szdd L2.Kwaj Model.Find Model.OutName Model.Cabx Model.Chm Model.Oab Model.Cab Model.CabSet Model.Kwaj.
 Extraction Language OCaml.
 Set Extraction Optimize.
-Extraction "model.ml" cksum lzss_spec lzss_enc block_accepts lzss_enc_expand wf_tok mszip_ideal lzx_run qtm_run run_script_decompress run_script_open_extract cab_find out_tail perm_bits mtime_fields chm_session oab_run oab_patch_run cab_session set_session kwaj_session.
+Extraction "model.ml" cksum lzss_spec lzss_enc block_accepts lzss_enc_expand wf_tok mszip_ideal lzx_run qtm_run run_script_decompress run_script_open_extract run_kscript_decompress run_kscript_open_extract cab_find out_tail perm_bits mtime_fields chm_session oab_run oab_patch_run cab_session set_session kwaj_session.
